@@ -80,8 +80,21 @@ class Ref:
         for x in xs:
             if x is self.zero:
                 continue
-            r = x if r is self.zero else r + x
+            r = x if r is self.zero else self._add(r, x)
         return r
+
+    @staticmethod
+    def _add(a, b):
+        # implicit mode: a block may be given as a LinearOperator; the sum of an operator and a matrix is an operator
+        try:
+            from scipy.sparse.linalg import LinearOperator, aslinearoperator
+        except ImportError:  # pragma: no cover
+            return a + b
+        if isinstance(a, LinearOperator) and not isinstance(b, LinearOperator):
+            b = aslinearoperator(b)
+        elif isinstance(b, LinearOperator) and not isinstance(a, LinearOperator):
+            a = aslinearoperator(a)
+        return a + b
 
     def neg(self, x):
         return self.zero if x is self.zero else -x
@@ -229,5 +242,5 @@ class Ref:
                     term = vals[0]
                     for v in vals[1:]:
                         term = self.op(term, v)
-                result = term if result is zero else result + term
+                result = term if result is zero else self._add(result, term)
         return result
